@@ -11,6 +11,13 @@ for d in ${1:-*}/; do
   if echo "$out" | grep -q "^VIOLATION property=$prop"; then
     echo "detected  $d ($prop $tier): $(echo "$out" | grep -m1 '^minimised to' | cut -c1-200)"
   else
-    echo "MISSED    $d ($prop $tier): $(echo "$out" | tail -2 | head -1 | cut -c1-160)"
+    also=$(python3 -c "import json;print(' '.join(json.load(open('$d/meta.json')).get('also_run',[])))")
+    hit=""
+    for o in $also; do
+      out2=$(TAIL=400 /verif/selftest/mutant.sh "$d/patch.diff" "$o" "$tier" 2>&1)
+      if echo "$out2" | grep -q "^VIOLATION property=$o"; then hit="$o: $(echo "$out2" | grep -m1 '^minimised to' | cut -c1-160)"; break; fi
+    done
+    if [ -n "$hit" ]; then echo "detected* $d (not by $prop - see meta.json note; by $hit)"; else
+    echo "MISSED    $d ($prop $tier): $(echo "$out" | tail -2 | head -1 | cut -c1-160)"; fi
   fi
 done
